@@ -9,12 +9,12 @@ longer exists makes the variant "skipped" (listed in the evidence).
 V = []
 
 
-def fire(id, props, rule, file, old, new, note=""):
-    V.append({"id": id, "kind": "fire", "props": props, "rule": rule, "file": file, "old": old, "new": new, "note": note})
+def fire(id, props, rule, file, old, new, note="", also=()):
+    V.append({"id": id, "kind": "fire", "props": props, "rule": rule, "file": file, "old": old, "new": new, "note": note, "also": list(also)})
 
 
-def silent(id, props, file, old, new, note=""):
-    V.append({"id": id, "kind": "silent", "props": props, "rule": "", "file": file, "old": old, "new": new, "note": note})
+def silent(id, props, file, old, new, note="", also=()):
+    V.append({"id": id, "kind": "silent", "props": props, "rule": "", "file": file, "old": old, "new": new, "note": note, "also": list(also)})
 
 
 T = "labrea/types.py"
@@ -802,3 +802,119 @@ silent("datasetclass-validate-comprehension", ["C19"], DCL,
 silent("evaluate-request-handler-reordered-test", ["C12", "C18"], T,
        "        if e.source is request.evaluatable:\n            raise e",
        "        if e.source is request.evaluatable:\n            raise")
+
+# ------------------------------------------------------------------ round-2 strengthening (rules added after the second seeded corpus)
+fire("memorycache-get-none-check", ["C02", "C17"], "R-MC", C,
+     """        try:
+            return self._cache[evaluatable.fingerprint(options)]
+        except KeyError as e:
+            raise CacheGetFailure(evaluatable, options, self) from e""",
+     """        value = self._cache.get(evaluatable.fingerprint(options))
+        if value is None:
+            raise CacheGetFailure(evaluatable, options, self)
+        return value""")
+silent("memorycache-get-membership-form", ["C01", "C02", "C15", "C17", "C12"], C,
+       """        try:
+            return self._cache[evaluatable.fingerprint(options)]
+        except KeyError as e:
+            raise CacheGetFailure(evaluatable, options, self) from e""",
+       """        key = evaluatable.fingerprint(options)
+        if key not in self._cache:
+            raise CacheGetFailure(evaluatable, options, self)
+        return self._cache[key]""")
+fire("map-validate-first-combination", ["C10"], "R-WI", IT,
+     "        self._iter(options).validate(options)",
+     """        combinations = self._iterate_over_options(options)
+        if combinations:
+            WithOptions(self.evaluatable, self._create_option_set(*combinations[0])).validate(options)""")
+fire("iter-keys-first-element-only", ["C01", "C03"], "R-WI", IT,
+     """        return {
+            key
+            for evaluatable in self.evaluatables
+            for key in evaluatable.keys(options)
+        }""",
+     """        return {
+            key
+            for evaluatable in self.evaluatables[:1]
+            for key in evaluatable.keys(options)
+        }""")
+fire("value-evaluate-callable-fastpath", ["C13", "C19"], "R-EO", T,
+     """        try:
+            return deepcopy(self.value)
+        except Exception:  # noqa: E722
+            return self.value""",
+     """        if callable(self.value):
+            return self.value
+        try:
+            return deepcopy(self.value)
+        except Exception:  # noqa: E722
+            return self.value""")
+silent("value-evaluate-atomic-fastpath", ["C13", "C19", "C05", "C06"], T,
+       """        try:
+            return deepcopy(self.value)
+        except Exception:  # noqa: E722
+            return self.value""",
+       """        if isinstance(self.value, (int, str, bytes)):
+            return self.value
+        try:
+            return deepcopy(self.value)
+        except Exception:  # noqa: E722
+            return self.value""")
+fire("switch-evaluate-swallows-branch-error", ["C12", "C05"], "R-CD", CO,
+     "        return self._lookup(options).evaluate(options)",
+     """        try:
+            return self._lookup(options).evaluate(options)
+        except EvaluationError:
+            if self.default is MISSING:
+                raise
+            return self.default.evaluate(options)""")
+fire("cache-disabled-generator-without-finally", ["C12", "C14", "C16"], "R-HI", C,
+     """def disabled() -> runtime.Runtime:
+    return runtime.handle(
+        {
+            CacheSetRequest: _disabled_set_cache_handler,
+            CacheGetRequest: _disabled_get_cache_handler,
+            CacheExistsRequest: _disabled_exists_cache_handler,
+        }
+    )""",
+     """def disabled():
+    uncached = runtime.handle(
+        {
+            CacheSetRequest: _disabled_set_cache_handler,
+            CacheGetRequest: _disabled_get_cache_handler,
+            CacheExistsRequest: _disabled_exists_cache_handler,
+        }
+    )
+    uncached.__enter__()
+    yield uncached
+    uncached.__exit__(None, None, None)""")
+fire("dataset-overload-identity-against-instance", ["C20"], "R-PK", D,
+     "        if self.overloads.dispatch == Value(MISSING):",
+     "        if self.overloads.dispatch is _NO_DISPATCH:",
+     also=[("class Dataset(Evaluatable[A]):", "_NO_DISPATCH = Value(MISSING)\n\n\nclass Dataset(Evaluatable[A]):"),
+           ("            self.dispatch = Value(MISSING)", "            self.dispatch = _NO_DISPATCH")])
+fire("option-memoises-evaluated-domain", ["C04", "C01"], "R-IS", O,
+     "        domain = self.domain.evaluate(options)\n        if not callable(domain)",
+     "        if not hasattr(self, \"_dom\"):\n            self._dom = self.domain.evaluate(options)\n        domain = self._dom\n        if not callable(domain)")
+fire("pipeline-memoises-composed-function", ["C13", "C20"], "R-IS", PL,
+     "        return lambda x: tail(rest(x))",
+     "        self._composed = lambda x: tail(rest(x))\n        return self._composed")
+fire("datasetclass-memo-inherited", ["C19"], "R-MF", DCL,
+     """        for key in dir(cls):
+            dependency = getattr(cls, key, None)
+            if isinstance(dependency, Evaluatable) and not key.startswith("__"):
+                dependency.validate(options)""",
+     """        if not hasattr(cls, "_names"):
+            cls._names = [k for k in dir(cls) if isinstance(getattr(cls, k, None), Evaluatable) and not k.startswith("__")]
+        for key in dir(cls):
+            dependency = getattr(cls, key, None)
+            if isinstance(dependency, Evaluatable) and not key.startswith("__"):
+                dependency.validate(options)""")
+silent("runtime-exit-restore-helper", ["C14", "C15"], RT,
+       """            if previous is None:
+                _RUNTIMES.pop(thread, None)
+            else:
+                _RUNTIMES[thread] = previous""",
+       """            self._restore(thread, previous)""",
+       also=[("    def __exit__(self, exc_type, exc_value, traceback):",
+              "    def _restore(self, thread, previous):\n        if previous is None:\n            _RUNTIMES.pop(thread, None)\n            return\n        _RUNTIMES[thread] = previous\n\n    def __exit__(self, exc_type, exc_value, traceback):")])
